@@ -607,6 +607,10 @@ SEEDED_MORE = [
     ("C20", "C20Gen", "src/enc/encode.rs", "        BROTLI_PARAM_MAGIC_NUMBER => params.magic_number = value != 0,\n", "", False),
     ("C20", "C20Gen", "src/enc/encode.rs", "        if self.is_initialized_ {\n            false\n        } else {\n            set_parameter(&mut self.params, p, value)\n        }", "        set_parameter(&mut self.params, p, value)", False),
     ("C20", "C20Gen", "src/enc/encode.rs", "        BROTLI_PARAM_APPENDABLE => params.appendable = value != 0,", "        BROTLI_PARAM_APPENDABLE => {\n            let on = value != 0;\n            params.appendable = on;\n        }", True),
+    # C16Gen (constructors / predicates)
+    ("C16", "C16Gen", "src/concat/mod.rs", "if self.num_bytes_read == 4 && (127 & self.bytes_so_far[0]) != 17 {", "if self.num_bytes_read == 4 && (127 & self.bytes_so_far[0]) != 16 {", False),
+    ("C16", "C16Gen", "src/concat/mod.rs", "            last_bytes = [17u8, log_window_size | 64 | 128];", "            last_bytes = [17u8, log_window_size | 64];", False),
+    ("C16", "C16Gen", "src/concat/mod.rs", "        if self.num_bytes_read == 4 && (127 & self.bytes_so_far[0]) != 17 {\n            return true;\n        }\n        self.num_bytes_read == 5", "        let first = self.bytes_so_far[0];\n        if self.num_bytes_read == 4 && (127 & first) != 17 {\n            return true;\n        }\n        self.num_bytes_read == 5", True),
     # C18vGen
     ("C18v", "C18vGen", "src/enc/command.rs", "let copylen_code_delta = (copylen_code as i32 - copylen as i32) as i8;", "let copylen_code_delta = (copylen as i32 - copylen_code as i32) as i8;", False),
     ("C18v", "C18vGen", "src/enc/command.rs", "            (self.dist_prefix_ & 0x3ff) == 0,\n            &mut self.cmd_prefix_,", "            (self.dist_prefix_ & 0x3ff) != 0,\n            &mut self.cmd_prefix_,", False),
